@@ -117,8 +117,12 @@ func (w *simWriter) put(p []byte) (int, error) {
 	w.d.mu.Lock()
 	w.f.Data = append(w.f.Data, p...)
 	w.d.mu.Unlock()
-	if w.d.OnOp != nil && len(p) > 0 && p[len(p)-1] == '\n' {
-		w.d.OnOp(w.f.Path, "record", true)
+	if w.d.OnOp != nil && len(p) > 0 {
+		if p[len(p)-1] == '\n' {
+			w.d.OnOp(w.f.Path, "record", true)
+		} else {
+			w.d.OnOp(w.f.Path, "write", true) // inside a record (between two fields or fill characters)
+		}
 	}
 	return len(p), nil
 }
